@@ -267,6 +267,8 @@ def score_entry_points():
     EP["part.collections"] = lambda sc: [len(sc.parts[0].notes), len(sc.parts[0].notes_tied), len(sc.parts[0].measures),
                                          len(sc.parts[0].rests), sc.parts[0].number_of_staves]
     EP["unfold_part_maximal"] = lambda sc: S.unfold_part_maximal(sc)
+    EP["unfold_part_maximal[score,noids]"] = lambda sc: S.unfold_part_maximal(sc, update_ids=False)
+    EP["unfold_part_maximal[score,leaps]"] = lambda sc: S.unfold_part_maximal(sc, ignore_leaps=False)
     EP["unfold_part_maximal[part]"] = lambda sc: S.unfold_part_maximal(sc.parts[0], update_ids=False)
     EP["unfold_part_maximal[part,leaps]"] = lambda sc: S.unfold_part_maximal(sc.parts[0], ignore_leaps=False)
     EP["unfold_part_minimal"] = lambda sc: S.unfold_part_minimal(sc)
@@ -319,12 +321,30 @@ def match_entry_points():
     return EP
 
 
+def array_entry_points():
+    from partitura.utils.music import compute_pianoroll, slice_notearray_by_time, ensure_notearray
+    from partitura.musicanalysis import estimate_spelling, estimate_voices, estimate_key
+
+    EP = {}
+    for name, (a, b) in {"all": (0, 100), "clip-end": (0, 5), "clip-start": (1, 100), "clip-both": (1, 5), "inside": (2, 4),
+                         "exact": (0, 6)}.items():
+        EP["slice_notearray_by_time[%s]" % name] = (lambda a, b: lambda na: slice_notearray_by_time(na, a, b))(a, b)
+        EP["slice_notearray_by_time[%s,noclip]" % name] = (lambda a, b: lambda na: slice_notearray_by_time(na, a, b, clip_onset_duration=False))(a, b)
+    EP["slice_notearray_by_time[div]"] = lambda na: slice_notearray_by_time(na, 2, 20, time_unit="div")
+    EP["compute_pianoroll[array]"] = lambda na: compute_pianoroll(na, return_idxs=True)
+    EP["estimate_spelling[array]"] = lambda na: estimate_spelling(na)
+    EP["estimate_voices[array]"] = lambda na: estimate_voices(na)
+    EP["estimate_key[array]"] = lambda na: estimate_key(na)
+    EP["ensure_notearray[array]"] = lambda na: ensure_notearray(na)
+    return EP
+
+
 _EP_CACHE = {}
 
 
 def entry_points(kind):
     if kind not in _EP_CACHE:
-        _EP_CACHE[kind] = {"score": score_entry_points, "perf": perf_entry_points, "match": match_entry_points}[kind]()
+        _EP_CACHE[kind] = {"score": score_entry_points, "perf": perf_entry_points, "match": match_entry_points, "array": array_entry_points}[kind]()
     return _EP_CACHE[kind]
 
 
@@ -336,10 +356,17 @@ def build_obj(case):
         return build_perf(perf_spec(case["variant"]))
     if kind == "match":
         return (ir.build_score(score_spec(case["feats"])), build_perf(perf_spec(case["variant"])))
+    if kind == "array":
+        sc = ir.build_score(score_spec(case["feats"]))
+        return sc.note_array() if case["variant"] == "score" else sc.parts[0].note_array(include_staff=True)
     raise ValueError(kind)
 
 
 def fp_obj(obj, ignore_segments=False):
+    import numpy as np
+
+    if isinstance(obj, np.ndarray):
+        return ("ndarray", str(obj.dtype), obj.shape, obj.tobytes())
     if isinstance(obj, tuple):
         return tuple(fp_obj(o, ignore_segments) for o in obj)
     import partitura.score as S
@@ -373,7 +400,7 @@ def eval_seq(case):
         outs.append("ok" if ok else r)
         fp1 = fp_obj(obj)
         if fp1 != fp0:
-            if fp_obj(obj, True) == fp0s:
+            if fp_obj(obj, True) == fp0s and _takes_part(name):
                 seg_only = True
                 res.fail("argument-unchanged", expected="fingerprint of the argument unchanged",
                          observed="Segment objects registered on the argument part", where="segments-left-on-argument",
@@ -414,6 +441,13 @@ def eval_seq(case):
     res.nontrivial = all(ok for ok, _ in results)
     res.outcome = "|".join(outs)
     return res
+
+
+def _takes_part(name):
+    """entry points that are handed a Part (the known Segment finding is about these): the unfold functions with
+    a [part...] argument, iter_unfolded_parts / make_score_variants (Part only) and save_match (unfolds its part)"""
+    return name.startswith(("iter_unfolded_parts", "make_score_variants", "save_match")) or \
+        (name.startswith("unfold_part_") and "[part" in name)
 
 
 def _add_segments(obj):
@@ -621,6 +655,11 @@ def spaces(tier, seed):
         if tier == "thorough":
             it.append(dict(kind="iter", container=kind, n=4, k=2))
             it.append(dict(kind="iter", container=kind, n=3, k=3, maxp=4))
+    names_a = sorted(_names("array"))
+    sp.append(Space("array-sequences", [dict(kind="array", feats=f, variant=v, seq=[a, b]) for f in ([], ["tie", "grace"], ["two_parts", "overlap"])
+                                         for v in ("score", "part") for a in names_a for b in names_a], True,
+                    "note arrays of 3 scores (score-level and part-level) x all ordered pairs (incl. equal) of %d entry points that take a "
+                    "note array (time slices with and without clipping, piano roll, spelling, voices, key)" % len(names_a)))
     cc = [dict(kind="container", how=h, feats=f) for f in ([], ["two_parts"], ["two_parts", "repeat"], ["two_parts", "volta", "nav"], ["repeat", "staff2"])
           for h in ("constructed", "derived", "setitem")] + [dict(kind="container", how="performance", feats=[])]
     sp.append(Space("container-consistency", cc, True,
